@@ -1,6 +1,7 @@
 """One module per property; each exposes META (dict) and cases(tier) -> [Case]."""
 MODULES = {
     "C01": "harness.c01_decode",
+    "C06": "harness.c06_response",
     "C04": "harness.c04_address",
     "C05": "harness.c05_frame",
 }
